@@ -34,4 +34,34 @@ theorem exGrid_Incr (p : ℕ) : (exGrid p).Incr := by
   · rw [h0, h1]; norm_num
   · rw [h1, h2]; norm_num
 
+/-- constant table `c, c, c` on the same grid, no 1/E scaling -/
+noncomputable def exConst (c : ℝ) : XsGrid ℝ :=
+  ⟨UGrid.fromBounds 0 2 3, noScaling, 0, 3, #[c, c, c]⟩
+
+theorem exConst_WF (c : ℝ) : (exConst c).WF :=
+  ⟨UGrid.fromBounds_WF 0 2 3 (by norm_num) (by norm_num), rfl, by simp [exConst]⟩
+
+theorem exConst_Pos (c : ℝ) (hc : 0 < c) : (exConst c).Pos := by
+  intro i hi
+  have h3 : i < 3 := hi
+  interval_cases i <;> simp [XsGrid.y, exConst, hc]
+
+/-- the loss rate of the constant table at E = 1 (the first knot) -/
+theorem exConst_calc_one (c : ℝ) : (exConst c).calc floorIdx 1 = some c := by
+  rw [(exConst_WF c).calc_below (by rw [Real.log_one]; simp [exConst, UGrid.fromBounds])]
+  simp [exConst, noScaling, XsGrid.y]
+
+/-- the range table 1, 2, 4 at E = 1: range = 1 -/
+theorem exGrid_range_one : (exGrid noScaling).range floorIdx 1 = some 1 := by
+  rw [(exGrid_WF noScaling).range_below (by rw [Real.log_one]; simp [exGrid, UGrid.fromBounds])]
+  have h0 := (exGrid_y noScaling).1
+  rw [h0, Real.log_one]
+  simp [exGrid, UGrid.fromBounds]
+
+/-- inverse range below the first table value: `E₀ (r/r₀)²` with `E₀ = exp 0 = 1`, `r₀ = 1` -/
+theorem exGrid_invRange_below (r : ℝ) (h : r < 1) : (exGrid noScaling).invRange r = some (r * r) := by
+  have h0 := (exGrid_y noScaling).1
+  rw [(exGrid_WF noScaling).invRange_below (by rw [h0]; exact h), h0]
+  simp [exGrid, UGrid.fromBounds]
+
 end CelerVerif.Calc
